@@ -103,6 +103,18 @@ def allSubrefs (st : St) (ids : List Id) : List Id :=
 def purge (P : Store) (st : St) (owned known : List Id) : Store := fun i =>
   if i ∈ owned || (known.any (fun k => k == i && (st k).isSome)) || i ∈ allSubrefs st known then none else P i
 
+/-- the states that fell out of the current purpose (they carry another, non-empty one) -/
+def fallen (st : St) (ids : List Id) (reason : String) : List Id :=
+  ids.filter (fun i => match st i with
+    | some h => h.r.purpose != none && h.r.purpose != some reason
+    | none => false)
+
+/-- The purge of a superseded cause's leftovers (/repo C02-F1 repair): only the handlers that fell out of the
+    current purpose, with their sub-handlers; the re-purposed ones continue their series and keep their
+    children's progress. -/
+def purgeFallen (P : Store) (st : St) (ids : List Id) (reason : String) : Store := fun i =>
+  if i ∈ fallen st ids reason || i ∈ allSubrefs st (fallen st ids reason) then none else P i
+
 /-- pre-call checks of `execute_handler_once` (timeout first, then retries) -/
 def precheckFails (l : Limits) (r : Rec) (now : Tick) : Bool :=
   (match l.timeout with | some t => decide (now - r.started ≥ t) | none => false) ||
@@ -198,9 +210,9 @@ def cycle (cfg : Cfg) (P : Store) (now now1 : Tick) (exec : Id → Nat → Outco
     let ex := hasExtras st0 (known cfg) cfg.reason
     -- the selected handlers are re-purposed if anything carries another purpose; the purge happens only
     -- if something still does AFTERWARDS ("extras are recalculated!"): i.e. a record of a handler that
-    -- is not selected any more
+    -- is not selected any more — and it removes those records (and their sub-handlers') only
     let st1 := if ex then repurpose st0 cfg.selected cfg.reason else st0
-    let P1 := if hasExtras st1 (known cfg) cfg.reason then purge P st1 cfg.owned (known cfg) else P
+    let P1 := if hasExtras st1 (known cfg) cfg.reason then purgeFallen P st1 (known cfg) cfg.reason else P
     if cfg.selected.isEmpty then
       -- the `skip` path: nothing to run; the cycle is closed and whatever records the owned
       -- handlers left behind (they are not selected any more) are purged with it
@@ -294,7 +306,7 @@ structure Cycle2Result where
 def cycle2 (cfg : Cfg) (sub : SubReg) (P : Store) (now : Tick) (execLeaf : Id → Nat → Outcome) : Cycle2Result :=
   let st0 := withHandlers (fromStorage P cfg.owned) cfg.selected cfg.reason now
   let st1 := if hasExtras st0 (known cfg) cfg.reason then repurpose st0 cfg.selected cfg.reason else st0
-  let P1 := if hasExtras st1 (known cfg) cfg.reason then purge P st1 cfg.owned (known cfg) else P
+  let P1 := if hasExtras st1 (known cfg) cfg.reason then purgeFallen P st1 (known cfg) cfg.reason else P
   let r := execOnce cfg st1 now now (execTop cfg sub P now execLeaf)
   let parents := r.invoked.map (·.1)
   let P1s := subWrites cfg sub P now execLeaf parents P1
